@@ -105,5 +105,13 @@ OutcomeOK(p, o, timeoutMs, epsMs) ==
 (* (3) hook selection: a principal is run exactly the hooks of the stage   *)
 (* that the applied policy assigns to that principal                       *)
 (***************************************************************************)
-Selected(hooks, stage, principal) == {h \in hooks : h.stage = stage /\ principal \in h.pr}
+\* hooks are records [name, stages, pr]; keys belong to principals (a person may hold several keys); "" = nobody
+Selected(hooks, stage, principal) == {h \in hooks : stage \in h.stages /\ principal \in h.pr}
+KeyOwner == [k1 |-> "p1", k2 |-> "p2", k3a |-> "P3", k3b |-> "P3", kx |-> ""]
+\* what invoking the hooks of `stage` with a signer holding `key` must do
+SelResult(hooks, stage, key) ==
+    LET who == KeyOwner[key] sel == {h.name : h \in Selected(hooks, stage, who)} IN
+    IF who = "" THEN [res |-> "unknown", ran |-> {}]
+    ELSE IF sel = {} THEN [res |-> "nohooks", ran |-> {}]
+    ELSE [res |-> "ok", ran |-> sel]
 =============================================================================
